@@ -8,17 +8,24 @@
 //! * one slot table per scope; in a procedure parameter `i` is slot `i`, a FUNCTION's own qualified name is slot
 //!   `n` (right after the `n` parameters), other variables follow in order of first occurrence;
 //! * every actual argument carries the (name, type) of the parameter it binds to.
-//! Returns `None` for anything outside the modelled language: arrays, records, fixed-length strings, STATIC
-//! procedures, SHARED, CONST, GOSUB / GOTO / labels, ON ERROR, built-ins other than DATA / READ, extended-style
-//! (`AS INTEGER`) parameters are accepted only if built-in, duplicate parameter names are rejected.
+//! * a variable reference is `<slot>` (slot of the scope it occurs in) or `(g <slot>)` (slot of the table of DIM SHARED
+//!   variables); which one is decided by the linter's own answer `Names::get_resolved_variable_info(scope, name).shared`,
+//!   the very flag the generator copies into `RootPath { shared }`;
+//! * a procedure carries its `is_static` flag; a `CONST` statement is dropped (its uses are literals already).
+//! Returns `None` for anything outside the modelled language: arrays, records, fixed-length strings,
+//! DIM SHARED inside a procedure, GOSUB / GOTO / labels, ON ERROR, built-ins other than DATA / READ,
+//! extended-style (`AS INTEGER`) parameters are accepted only if built-in, duplicate parameter names are rejected.
 
+use std::cell::RefCell;
 use std::collections::HashMap;
 
 use rusty_common::Positioned;
+use rusty_linter::core::ScopeName;
+use rusty_linter::names::Names;
 use rusty_parser::{
     AsBareName, BuiltInSub, CaseExpression, DimType, DoLoopConditionKind, DoLoopConditionPosition, Expression,
     ExpressionPos, ExpressionType, Expressions, GlobalStatement, Operator, ParamType, Parameter, PrintArg, Program,
-    Statement, Statements, TypeQualifier, UnaryOperator,
+    Name, Statement, Statements, TypeQualifier, UnaryOperator,
 };
 
 use crate::ast_sx::{float_val, qual};
@@ -60,13 +67,31 @@ struct Sig {
     /// (declared bare name, type)
     params: Vec<(String, TypeQualifier)>,
     result: Option<TypeQualifier>,
+    is_static: bool,
 }
 
-struct Ctx {
+struct Ctx<'a> {
     /// user FUNCTIONs by upper-case bare name, user SUBs by upper-case bare name
     functions: HashMap<String, Sig>,
     subs: HashMap<String, Sig>,
     in_proc: bool,
+    /// the procedure being serialised is STATIC
+    in_static: bool,
+    /// the scope being serialised, as the linter names it
+    scope: ScopeName,
+    names: &'a Names,
+    /// the table of DIM SHARED variables
+    gslots: RefCell<Slots>,
+}
+
+/// `<slot>` or `(g <slot>)`
+fn var_ref(name: &Name, q: TypeQualifier, slots: &mut Slots, cx: &Ctx) -> String {
+    let bare = name.as_bare_name().to_string();
+    if cx.names.get_resolved_variable_info(&cx.scope, name).shared {
+        format!("(g {})", cx.gslots.borrow_mut().get(&bare, q))
+    } else {
+        format!("{}", slots.get(&bare, q))
+    }
 }
 
 fn op(o: Operator) -> &'static str {
@@ -108,7 +133,7 @@ fn expr(e: &ExpressionPos, slots: &mut Slots, cx: &Ctx) -> Option<String> {
         Expression::DoubleLiteral(f) => format!("(lit {} {} {})", float_val("dbl", *f)?, r, c),
         Expression::StringLiteral(t) => format!("(lit (str {}) {} {})", sx::chars(t), r, c),
         Expression::Variable(name, ExpressionType::BuiltIn(q)) => {
-            let x = slots.get(&name.as_bare_name().to_string(), *q);
+            let x = var_ref(name, *q, slots, cx);
             format!("(var {} {} {} {})", x, qual(*q), r, c)
         }
         Expression::UnaryExpression(UnaryOperator::Minus, child) => format!("(neg {} {} {})", expr(child, slots, cx)?, r, c),
@@ -161,14 +186,25 @@ fn sstmt(st: &Positioned<Statement>, slots: &mut Slots, cx: &Ctx, out: &mut Vec<
     let (r, c) = (pos.row(), pos.col());
     match element {
         Statement::Comment(_) => out.push("comment".to_owned()),
+        Statement::Const(_) => out.push("comment".to_owned()),
         Statement::Dim(dim_list) => {
-            if dim_list.shared {
+            if dim_list.shared && cx.in_proc {
                 return None;
             }
             for v in &dim_list.variables {
                 match v.element.var_type() {
                     DimType::BuiltIn(q, _) => {
-                        let x = slots.get(&v.element.as_bare_name().to_string(), *q);
+                        let bare = v.element.as_bare_name().to_string();
+                        if cx.in_static {
+                            let x = slots.get(&bare, *q);
+                            out.push(format!("(sdim {} {} {} {})", x, qual(*q), v.pos.row(), v.pos.col()));
+                            continue;
+                        }
+                        let x = if dim_list.shared {
+                            format!("(g {})", cx.gslots.borrow_mut().get(&bare, *q))
+                        } else {
+                            format!("{}", slots.get(&bare, *q))
+                        };
                         out.push(format!("(dim {} {} {} {})", x, qual(*q), v.pos.row(), v.pos.col()));
                     }
                     _ => return None,
@@ -177,7 +213,7 @@ fn sstmt(st: &Positioned<Statement>, slots: &mut Slots, cx: &Ctx, out: &mut Vec<
         }
         Statement::Assignment(a) => match a.lvalue() {
             Expression::Variable(name, ExpressionType::BuiltIn(q)) => {
-                let x = slots.get(&name.as_bare_name().to_string(), *q);
+                let x = var_ref(name, *q, slots, cx);
                 out.push(format!("(assign {} {} {} {} {})", x, qual(*q), expr(a.rvalue(), slots, cx)?, r, c));
             }
             _ => return None,
@@ -212,7 +248,7 @@ fn sstmt(st: &Positioned<Statement>, slots: &mut Slots, cx: &Ctx, out: &mut Vec<
                 for a in b.args() {
                     match &a.element {
                         Expression::Variable(name, ExpressionType::BuiltIn(q)) => {
-                            let x = slots.get(&name.as_bare_name().to_string(), *q);
+                            let x = var_ref(name, *q, slots, cx);
                             vars.push(format!("({} {} {} {})", x, qual(*q), a.pos.row(), a.pos.col()));
                         }
                         _ => return None,
@@ -263,7 +299,7 @@ fn sstmt(st: &Positioned<Statement>, slots: &mut Slots, cx: &Ctx, out: &mut Vec<
         }
         Statement::ForLoop(f) => {
             let (x, q) = match &f.variable_name.element {
-                Expression::Variable(name, ExpressionType::BuiltIn(q)) => (slots.get(&name.as_bare_name().to_string(), *q), *q),
+                Expression::Variable(name, ExpressionType::BuiltIn(q)) => (var_ref(name, *q, slots, cx), *q),
                 _ => return None,
             };
             let lo = expr(&f.lower_bound, slots, cx)?;
@@ -312,25 +348,30 @@ fn params(ps: &[Positioned<Parameter>]) -> Option<Vec<(String, TypeQualifier)>> 
 }
 
 pub struct ProcProgram {
-    /// `(pprogram (<ty>…) (<stmt>…) (<proc>…))`
+    /// `(pprogram (<main ty>…) (<shared ty>…) (<stmt>…) (<proc>…))`
     pub program: String,
-    /// `(<main table> (<proc table>…))`, a table = `((<name> <ty>)…)` in slot order
+    /// `(<main table> <shared table> (<proc table>…))`, a table = `((<name> <ty>)…)` in slot order
     pub tables: String,
     pub n_procs: usize,
 }
 
 /// The linted program with procedures in the syntax of `RbModel.Proc.Syntax`, or None if outside it.
-pub fn program(p: &Program) -> Option<ProcProgram> {
+pub fn program(p: &Program, names: &Names) -> Option<ProcProgram> {
     // pass 1: signatures, FUNCTIONs first, then SUBs (the order `generate_unresolved` emits them in)
-    let mut cx = Ctx { functions: HashMap::new(), subs: HashMap::new(), in_proc: false };
+    let mut cx = Ctx {
+        functions: HashMap::new(),
+        subs: HashMap::new(),
+        in_proc: false,
+        in_static: false,
+        scope: ScopeName::Global,
+        names,
+        gslots: RefCell::new(Slots::new()),
+    };
     let mut index = 0;
     for gs in p {
         if let GlobalStatement::FunctionImplementation(f) = &gs.element {
-            if f.is_static {
-                return None;
-            }
             let name = &f.name.element;
-            let sig = Sig { index, params: params(&f.params)?, result: Some(name.qualifier()?) };
+            let sig = Sig { index, params: params(&f.params)?, result: Some(name.qualifier()?), is_static: f.is_static };
             if cx.functions.insert(name.as_bare_name().to_string().to_ascii_uppercase(), sig).is_some() {
                 return None;
             }
@@ -339,10 +380,7 @@ pub fn program(p: &Program) -> Option<ProcProgram> {
     }
     for gs in p {
         if let GlobalStatement::SubImplementation(sb) = &gs.element {
-            if sb.is_static {
-                return None;
-            }
-            let sig = Sig { index, params: params(&sb.params)?, result: None };
+            let sig = Sig { index, params: params(&sb.params)?, result: None, is_static: sb.is_static };
             if cx.subs.insert(sb.name.element.to_string().to_ascii_uppercase(), sig).is_some() {
                 return None;
             }
@@ -375,6 +413,8 @@ pub fn program(p: &Program) -> Option<ProcProgram> {
             let name = &f.name.element;
             let q = name.qualifier()?;
             let sig = cx.functions.get(&name.as_bare_name().to_string().to_ascii_uppercase())?.clone();
+            cx.scope = ScopeName::Function(name.clone());
+            cx.in_static = sig.is_static;
             let mut slots = Slots::new();
             for (pn, pq) in &sig.params {
                 slots.get(pn, *pq);
@@ -388,8 +428,9 @@ pub fn program(p: &Program) -> Option<ProcProgram> {
             }
             let body = sblock(&f.body, &mut slots, &cx)?;
             procs.push(format!(
-                "(proc (fn {}) {} {} {} {} {} {})",
+                "(proc (fn {}) {} {} {} {} {} {} {})",
                 qual(q),
+                if sig.is_static { "t" } else { "f" },
                 s(&name.to_string()),
                 sx::list(sig.params.iter().map(|(n, t)| format!("({} {})", s(n), qual(*t)))),
                 sx::list(slots.types.iter()),
@@ -404,6 +445,8 @@ pub fn program(p: &Program) -> Option<ProcProgram> {
         if let GlobalStatement::SubImplementation(sb) = &gs.element {
             let name = sb.name.element.to_string();
             let sig = cx.subs.get(&name.to_ascii_uppercase())?.clone();
+            cx.scope = ScopeName::Sub(sb.name.element.clone());
+            cx.in_static = sig.is_static;
             let mut slots = Slots::new();
             for (pn, pq) in &sig.params {
                 slots.get(pn, *pq);
@@ -413,7 +456,8 @@ pub fn program(p: &Program) -> Option<ProcProgram> {
             }
             let body = sblock(&sb.body, &mut slots, &cx)?;
             procs.push(format!(
-                "(proc sub {} {} {} {} {} {})",
+                "(proc sub {} {} {} {} {} {} {})",
+                if sig.is_static { "t" } else { "f" },
                 s(&name),
                 sx::list(sig.params.iter().map(|(n, t)| format!("({} {})", s(n), qual(*t)))),
                 sx::list(slots.types.iter()),
@@ -426,8 +470,14 @@ pub fn program(p: &Program) -> Option<ProcProgram> {
     }
     let n_procs = procs.len();
     Some(ProcProgram {
-        program: format!("(pprogram {} {} {})", sx::list(main_slots.types.iter()), sx::list(main), sx::list(procs)),
-        tables: format!("({} {})", main_slots.table(), sx::list(tables)),
+        program: format!(
+            "(pprogram {} {} {} {})",
+            sx::list(main_slots.types.iter()),
+            sx::list(cx.gslots.borrow().types.iter()),
+            sx::list(main),
+            sx::list(procs)
+        ),
+        tables: format!("({} {} {})", main_slots.table(), cx.gslots.borrow().table(), sx::list(tables)),
         n_procs,
     })
 }
@@ -438,11 +488,20 @@ pub fn src_and_code(text: &str) -> Option<(ProcProgram, String)> {
     std::panic::catch_unwind(move || {
         let p = rusty_parser::parse_main_str(t).ok()?;
         let (linted, ctx) = rusty_linter::core::lint(p).ok()?;
-        let pp = program(&linted)?;
         let (names, _udt) = rusty_basic::instruction_generator::unwrap_linter_context(ctx);
+        if std::env::var("VERIF_C03P_TREE").is_ok() {
+            eprintln!("{:?}", linted);
+        }
+        let pp = program(&linted, &names)?;
         let res = rusty_basic::instruction_generator::generate_instructions(linted, names);
         let (code, _addrs) = crate::instr_sx::program(&res);
         Some((pp, code))
+    })
+    .map_err(|e| {
+        if std::env::var("VERIF_C03P_SHOW").is_ok() {
+            eprintln!("front end / serialiser panicked: {:?}", e.downcast_ref::<String>());
+        }
+        e
     })
     .ok()
     .flatten()
